@@ -146,6 +146,35 @@ def insert_noise(rng, packets, dialect, positions=None, count=None):
     return out
 
 
+def insert_failing(rng, packets, dialect):
+    """mapped packets that fail while being decoded or applied, without any effect (unknown entity, payload shorter than the fixed
+    fields, a nested update with no bits at all for an entity that exists): in lenient mode every other packet must still be
+    delivered exactly as before -- the exception classes differ on purpose (KeyError, struct.error, plain Exception, AssertionError)"""
+    tab = history.DIALECTS[dialect]
+    out = list(packets)
+    for _ in range(rng.randint(1, 4)):
+        pos = rng.randint(1, len(out))
+        known = [m['id'] for _, _, m in out[:pos] if m.get('kind') in ('create', 'base') and isinstance(m.get('id'), int) and 0 <= m['id'] < 2 ** 31]
+        kind = rng.choice(['unknown-prop', 'unknown-method', 'short-prop', 'short-method', 'nested-empty', 'nested-size'])
+        unknown = 3000000 + rng.randint(0, 1000)
+        pkt = None
+        if kind == 'unknown-prop':
+            pkt = (tab['prop'], struct.pack('<II', unknown, 0) + history.bstream(b'\x00' * 4))
+        elif kind == 'unknown-method':
+            pkt = (tab['method'], struct.pack('<II', unknown, 0) + history.bstream(b''))
+        elif kind == 'short-prop':
+            pkt = (tab['prop'], b'\x01\x02')
+        elif kind == 'short-method':
+            pkt = (tab['method'], b'\x01\x02\x03')
+        elif kind == 'nested-empty' and 'nested' in tab and known and dialect != 'wowp':
+            pkt = (tab['nested'], struct.pack('<IbI', rng.choice(known), 0, 0))
+        elif kind == 'nested-size' and 'nested' in tab and known:
+            pkt = (tab['nested'], struct.pack('<IbI', rng.choice(known), 0, 9) + b'\x80')
+        if pkt is not None:
+            out.insert(pos, (pkt[0], pkt[1], {'kind': 'failing', 'fault': kind, 'time': 0}))
+    return out
+
+
 def _noise_worker(cfg):
     drv = common.Driver() if not cfg.get('no_model') else None
     st = histcheck.Setup(cfg['seed_key'])
@@ -167,7 +196,15 @@ def _noise_worker(cfg):
                     variants.append(insert_noise(rng, base_packets, dialect))
             key = '%s-%d' % (cfg['seed_key'], hi)
             bad = None
-            for v in variants:
+            if dialect != 'wowp':
+                for _ in range(2):
+                    v = insert_failing(rng, base_packets, dialect)
+                    _, got, _ = histcheck.run_history(None, st, dialect, v, strict=False, subs=subs)
+                    if got['world'] != ref['world'] or got['log'] != ref['log'] or histcheck.norm_end(got) != histcheck.norm_end(ref):
+                        bad = ('oracle', 'lenient mode: packets that fail without effect change what the other packets do: %s' % (
+                            histcheck.compare_worlds(got['world'], ref['world']) or ('ending %s vs %s' % (histcheck.norm_end(got), histcheck.norm_end(ref))) ), v)
+                        break
+            for v in ([] if bad else variants):
                 for strict in (False, True):
                     model, got, _ = histcheck.run_history(drv if strict is False else None, st, dialect, v, strict=strict, subs=subs)
                     refx = ref if not strict else histcheck.run_history(None, st, dialect, base_packets, strict=True, subs=subs)[1]
